@@ -161,6 +161,20 @@ CLAIMS = {
              "the real main(), both formats parsed back and compared with the baseline run.",
         ref="DESIGN.md 4.16", technique="Rocq proof (generic engine + option model, reader tables from source) + option-matrix differential runs of main()",
         note=NOTE + "Modelled, not verified: argparse, open()'s decoding. Tested only: that printed text parses back to the views."),
+    "C01": dict(
+        text="PARTIAL (the full statement - a complete model of all 39 checks over the whole grammar - is out of reach and is kept "
+             "visible, unproved, in Props/C01.v).  Proved for the code set K = {INVALID_HEADER, the six HEADER_PROT_* codes, the 18 "
+             "codes emitted by lexer.py}: by the emitter table regenerated from the source on every run a K code can only be "
+             "emitted by check_header.py, check_preprocessor_protection.py or lexer.py; no INVALID_HEADER for any 42 header with "
+             "well-formed stamps followed by ANY statement trace; no HEADER_PROT_* for a correctly guarded .h with any balanced body "
+             "and none for any non-header; the tokenizer model records no diagnostic on any statement line of unbounded length built "
+             "from identifiers, single spaces, one-character operators, brackets and 118 listed atoms (constants of every family of "
+             "Spec/CConst.v inside their guards, keywords, multi-character operators); all-Notice diagnostics give OK and all-OK "
+             "files give exit 0.  Refuted in the model: K1 (i = 0xb3ba; gives Error, exit 1).  TESTED, not proved: the silence of the "
+             "other 37 checks and the complete-unit claim - generated conforming programs (one third on the 25/5/4/5/80 limits, one "
+             "tenth through the real CLI) with a measured construct histogram, and grids of the known false-positive families.",
+        ref="DESIGN.md 4.1", technique="Rocq proof (composition of header, guard, lexer-line and verdict theorems over an emitter table from source) + conforming-program search",
+        note=NOTE + "Partial: 37 checks are only searched; programs are generated by the Python renderer, not a Coq AST."),
     "C02": dict(
         text="PARTIAL.  The run methods of seven checks (CheckTernary, CheckLineLen, CheckLabel, CheckManyInstructions, "
              "CheckEmptyLine, CheckLineIndent, CheckSpacing) are translated statement by statement from the Python AST into "
